@@ -25,6 +25,22 @@ class _Folder(Folder):
         return super()._getattr(v, a, e)
 
 
+def is_constant_name(tree: ast.Module, name: str) -> T.Optional[ast.AST]:
+    """The value of the module-level constant `name` of `tree` if it is bound once and never modified, else None."""
+    class _M:          # the part of sa.core.Module that is_constant_table reads
+        pass
+    m = _M()
+    m.tree = tree      # type: ignore[attr-defined]
+    if not is_constant_table(m, name):      # type: ignore[arg-type]
+        return None
+    for st in tree.body:
+        if isinstance(st, ast.Assign) and any(isinstance(t, ast.Name) and t.id == name for t in st.targets):
+            return st.value
+        if isinstance(st, ast.AnnAssign) and isinstance(st.target, ast.Name) and st.target.id == name and st.value is not None:
+            return st.value
+    return None
+
+
 def is_constant_table(mod: Module, name: str) -> bool:
     """`name` is bound exactly once, at module level, and nothing in the module stores into it or calls a
     mutating method on it."""
